@@ -10,6 +10,7 @@ import (
 	"google.golang.org/protobuf/proto"
 
 	"github.com/smart-core-os/sc-golang/internal/minibus"
+	"github.com/smart-core-os/sc-golang/internal/simhook"
 )
 
 // Value represents a simple state field in an object. Think Temperature or Volume or Occupancy. Use a Value to
@@ -40,6 +41,7 @@ func (r *Value) Get(opts ...ReadOption) proto.Message {
 }
 
 func (r *Value) get(req *ReadRequest) proto.Message {
+	simhook.BeforeRLock("value.get", &r.mu)
 	r.mu.RLock()
 	defer r.mu.RUnlock()
 	return req.FilterClone(r.value)
@@ -78,6 +80,7 @@ func (r *Value) set(value proto.Message, request WriteRequest) (proto.Message, e
 
 	ctx, cancel := context.WithTimeout(context.TODO(), time.Second*5)
 	defer cancel()
+	simhook.Yield("value.publish")
 	r.bus.Send(ctx, &ValueChange{
 		Value:      newValue,
 		ChangeTime: request.updateTime(r.clock),
@@ -134,12 +137,14 @@ func (r *Value) onUpdate(ctx context.Context, config *ReadRequest) (<-chan any, 
 		changeTime time.Time
 	)
 	if !config.UpdatesOnly {
+		simhook.BeforeRLock("value.sub.snapshot", &r.mu)
 		r.mu.RLock()
 		defer r.mu.RUnlock()
 		value = r.value
 		changeTime = r.changeTime
 	}
 
+	simhook.Yield("value.sub.listen")
 	ch := r.bus.Listen(ctx)
 	if !config.Backpressure {
 		ch = minibus.DropExcess(ch)
